@@ -45,7 +45,7 @@ for nnn in (128, 192, 256):
         "name": "leaf%d.absorb" % nnn, "files": ["harness/h_leaf.c", "stubs/mon.c", common],
         "defs": ["NNN=%d" % nnn, "PROG=12"], "functions": [fn_abs],
         "loops": [{
-            "fn": fn_abs, "idx": 0, "line": r"while \(size >= 4\)",
+            "fn": fn_abs, "idx": 0, "line": r"size >= 4",
             "assigns": "data, size, __CPROVER_object_whole(state), " + MON_ASSIGNS,
             "inv": "M.pc == 0 && M.pos <= M.l_len && size == M.l_len - M.pos && data == M.l_ptr + M.pos && " + st_eq("state", nnn, "->"),
             "dec": "size",
@@ -65,7 +65,7 @@ for nnn in (128, 192, 256):
 MON_ASSIGNS_TOP = "M.pc, M.sub, M.pos, M.cur, M.o.gout, M.o.gout_set"
 GHOST_OUT = ("(M.o.gidx < M.pos ==> (M.o.gout_set && M.out[M.o.gidx] == M.o.gout)) && (M.o.gidx >= M.pos ==> !M.o.gout_set) && "
              "((M.len > 0 && M.o.gidx >= M.pos) ==> M.in[M.o.gidx] == M.in_g)")
-TAGBYTE = "(uint8_t)((tjv_t < 4 ? M.tag_lo : M.tag_hi) >> (8 * (tjv_t & 3)))"
+TAGBYTE = "(unsigned char)((tjv_t < 4 ? M.tag_lo : M.tag_hi) >> (8 * (tjv_t & 3)))"
 AEAD_PROPS = ["C01", "C02", "C03", "C04", "C06"]
 SIV_PROPS = ["C08", "C09", "C04", "C06"]
 
@@ -78,9 +78,9 @@ def props_for(mode, kind):
 
 def top_loop(fn, own_pc, nnn, enc, extra_inv):
     if enc:
-        rem, inp, outp, line = "mlen", "m", "c", r"while \(mlen >= 4\)"
+        rem, inp, outp, line = "mlen", "m", "c", r"mlen >= 4"
     else:
-        rem, inp, outp, line = "clen", "c", "m", r"while \(clen >= 4\)"
+        rem, inp, outp, line = "clen", "c", "m", r"clen >= 4"
     inv = ("M.pc == %d && M.pos <= M.len && %s == M.len - M.pos && %s == M.in + M.pos && %s == M.out + M.pos && " % (own_pc, rem, inp, outp)
            + st_eq("state", nnn, ".") + " && " + GHOST_OUT + (" && " + extra_inv if extra_inv else ""))
     # decrypt: only the plaintext region [out, out + len) may change - in place the 8 tag bytes behind it (same object)
@@ -116,7 +116,7 @@ for nnn in (128, 192, 256):
                 "loops": [top_loop(fn, own_pc, nnn, enc, extra)],
                 "tags": spec_tags(props), "props": props, "default_props": props,
                 "reach_must": ["TJV_REACH after", "permutation stub reached"],
-                "unwind": 33, "timeout": 2400, "cost": 60, "mem_gb": 16, "solver": "kissat",
+                "unwind": 33, "timeout": 2400, "cost": 60, "mem_gb": 16, "solver": "kissat-unsat",
                 "unbounded": "adlen, mlen <= 2^40 (symbolic; loops closed by loop contracts), all keys, nonces, data; %s" % ("in place (one buffer)" if inplace else "separate buffers"),
                 "assumes": ["contract stubs of tinyjambu_{setup,absorb,generate_tag}_%d and tinyjambu_aead_check_tag (stubs/mon.c) stand for the real functions; each stub contract is discharged against the real function by the leaf%d.* and util.check_tag.* jobs" % (nnn, nnn)],
             })
